@@ -38,7 +38,8 @@ claim("C04",
       "the contract Batches.tla assumes of a client: a P: clause for elfi's own native and multiprocessing clients, drift only for dask; a sampler advanced by hand "
       "under another objective and abandoned with batches outstanding, then asked to sample(), returns the fresh sequential result and leaves no task.",
       "Small-scope bounds on MaxPar / consumed batches / rounds at design level (thorough adds TLC simulation beyond them); "
-      "dask/ipyparallel clusters are not available; digests are sha256 of the returned arrays.",
+      "dask/ipyparallel clusters are not available; digests are sha256 of the returned arrays.  The run also carries the RoundGate extension "
+      "(round / acquisition gating of ModelBased = BSL, BOLFIRE and of BayesianOptimization; E: clauses, reported as drift only, DESIGN 10.6).",
       "TLA+ design model checked by TLC (safety+liveness) + TLC trace validation of scheduled-client event logs", "5/C04")
 
 claim("C01",
@@ -66,7 +67,8 @@ claim("C06",
       "each against NpyStore_Trace.tla, which re-uses the design module's actions and infers how far the killed call got and which "
       "buffered writes had reached the OS.",
       "Process kill only (no power-failure / page-cache loss); the file proxy shadows elfi.store.open at run time; CPython's "
-      "BufferedRandom is over-approximated (any prefix of the buffered writes may have reached the OS).",
+      "BufferedRandom is over-approximated (any prefix of the buffered writes may have reached the OS).  The run also carries the PoolLife "
+      "extension (ArrayPool / OutputPool directory and pickle lifecycle; E: clauses, reported as drift only, DESIGN 10.6).",
       "TLA+ crash model checked by TLC + TLC trace validation of kill-injected executions", "5/C06")
 
 claim("C03",
@@ -90,8 +92,9 @@ claim("C14",
       "projected through the public API (nodes, classes, operation ids, edges with params, observed, parameter flags and parameter_names, "
       "seeded generate() digest) and TLC validates the trace against ElfiGraph_Trace.tla (P: clauses a-f on the observed projections, M: "
       "equality with the design store after each action).",
-      "Small-scope at design level (3 user names, <= 5 edits, 2 handles); named edges are not part of the edit histories; node names from a "
-      "fixed alphabet (sortedness is checked through a rank table).",
+      "Small-scope at design level (3 user names, <= 5 edits, 2 handles); node names from a "
+      "fixed alphabet (sortedness is checked through a rank table).  The run also carries the Naming extension (node naming, default model, "
+      "references, context bookkeeping; E: clauses, reported as drift only, DESIGN 10.6).",
       "TLA+ model of the edit operations checked by TLC + replay of edit histories + TLC trace validation", "5/C14")
 
 claim("C02",
@@ -225,7 +228,8 @@ claim("C11",
       "the sequential run).",
       "GPy and scipy.optimize are black boxes that return some point; clause e only for LCBSC and MaxVar and only as the relation between "
       "evaluate_gradient and a central difference of evaluate (relative 2e-3); coordinates in fixed point 1e-6; known finding F12 (RandMaxVar "
-      "with its default NUTS sampler raises TypeError under numpy 2).",
+      "with its default NUTS sampler raises TypeError under numpy 2).  The run also carries the BolfiPipeline extension (the BOLFI public call "
+      "pipeline as a state machine; E: clauses, reported as drift only, DESIGN 10.6).",
       "TLA+ BO-loop model checked by TLC (safety+liveness) + TLC trace validation of scheduled BO fits and direct acquisition calls", "5/C11")
 
 claim("C09",
